@@ -57,6 +57,10 @@ type half struct {
 	tap        bool
 	readTotal  int64
 	readTimes  []WriteEvent // (offset,len,time) of successful reads
+	// datagram mode: message boundaries are kept (one Write = one Read, empty messages included, excess
+	// bytes of a message that does not fit the reader's buffer are dropped like UDP does)
+	dgram bool
+	msgs  [][]byte
 }
 
 type Link struct {
@@ -131,6 +135,14 @@ func (e *End) Read(p []byte) (int, error) {
 		if e.closed {
 			return 0, net.ErrClosed
 		}
+		if h.dgram && len(h.msgs) > 0 {
+			m := h.msgs[0]
+			h.msgs = h.msgs[1:]
+			n := copy(p, m)
+			h.readTotal += int64(n)
+			l.cond.Broadcast()
+			return n, nil
+		}
 		if len(h.readable) > 0 {
 			if len(p) == 0 {
 				return 0, nil
@@ -193,7 +205,9 @@ func (e *End) Write(p []byte) (int, error) {
 		// TCP would accept the bytes and later answer with RST; they are never read
 		return len(p), nil
 	}
-	if h.auto {
+	if h.dgram {
+		h.msgs = append(h.msgs, c)
+	} else if h.auto {
 		h.readable = append(h.readable, c...)
 	} else {
 		h.pending = append(h.pending, c)
@@ -623,4 +637,28 @@ func (l *Link) Consumed(d Dir) int64 {
 	l.mu.Lock()
 	defer l.mu.Unlock()
 	return l.h[d].readTotal
+}
+
+// NewDatagramLink returns a link whose both directions keep message boundaries (UDP-like, delivered at once).
+func NewDatagramLink(id int) *Link {
+	l := NewLink(id, false)
+	l.h[0].dgram, l.h[1].dgram = true, true
+	return l
+}
+
+// DatagramDialer hands out datagram links (the proxy server side of an unordered session).
+type DatagramDialer struct {
+	Ln *Listener
+	mu sync.Mutex
+	n  int
+}
+
+func (d *DatagramDialer) Dial(network, address string) (net.Conn, error) {
+	d.mu.Lock()
+	d.n++
+	id := d.n
+	d.mu.Unlock()
+	l := NewDatagramLink(id)
+	d.Ln.Push(l.B)
+	return l.A, nil
 }
